@@ -524,6 +524,46 @@ def ambient_leg(c, rng, wd, nruns):
     c.sample({'kind': 'ambient', 'trace': traces[0][:6]})
 
 
+def ambient_lifecycle_leg(c):
+    """deep.start() through the public entry point, a hit, shutdown() in a fresh interpreter in which the application has
+    configured its own logging: what changed across each call is validated by Trace_Ambient, and the application's log
+    file must have received the application's records (and only those at its level)."""
+    import json
+    import os
+    import subprocess
+    import sys
+    p = subprocess.run([sys.executable, '-m', 'harness.ambient_start'], cwd=tlc.VERIF, env=dict(os.environ),
+                       stdout=subprocess.PIPE, stderr=subprocess.PIPE, timeout=180)
+    res = None
+    for line in p.stdout.decode('utf-8', 'replace').split('\n'):
+        if line.startswith('RESULT '):
+            res = json.loads(line[7:])
+    if res is None:
+        raise tlc.MachineryError('ambient life-cycle run produced no result: %s' % p.stderr.decode('utf-8', 'replace')[-500:])
+    consts = dict(Facets=set(FACETS), Features={'start', 'hit', 'shutdown'}, MaxSteps=100000, DrawsFromGlobalPRNG=False)
+    accepted, progress, r = tlc.validate_traces('Trace_Ambient', [res['trace']], constants=consts,
+                                                invariants=['TraceInvariant'])
+    c.states += r.distinct
+    c.transitions += r.generated
+    c.traces_validated += 1
+    c.note_case(key=('ambient-lifecycle',), nontrivial=True)
+    problems = []
+    if 0 not in accepted:
+        at = progress.get(0, 2)
+        ev = res['trace'][at - 1] if at - 1 < len(res['trace']) else {}
+        problems.append('%s changed %s of the process' % (ev.get('features'), ev.get('changed')))
+        sig = {'ambient': sorted(ev.get('changed', []))}
+    else:
+        sig = None
+    if res.get('app_log') != 'APP WARNING warning line of the application\n':
+        problems.append("the application's log file holds %r, the application logged one WARNING line" % (res.get('app_log'),))
+        sig = sig or {'ambient': ['logging']}
+    if problems:
+        path = c.save_replay({'direction': 'C2S', 'module': 'Trace_Ambient', 'kind': 'lifecycle', 'result': res,
+                              'problems': problems})
+        c.violation('ambient state across deep.start() / hit / shutdown(): %s' % problems, path, signature=sig)
+
+
 def run(c):
     quick = c.tier == 'quick'
     rng = random.Random(c.seed)
@@ -557,6 +597,7 @@ def run(c):
     c.mc_expect_violation('Ambient', dict(amb, constants=dict(amb['constants'], DrawsFromGlobalPRNG=True)),
                           'deviation DrawsFromGlobalPRNG', what='AgentLeavesAmbientStateAlone')
     ambient_leg(c, rng, wd, 4 if quick else 60)
+    ambient_lifecycle_leg(c)
 
 
 if __name__ == '__main__':
